@@ -443,3 +443,37 @@ func init() {
 		return nil
 	})
 }
+
+// ---- the environment: the largest file offset the filesystem under the temporary directory accepts ----
+// (lseek fails with EINVAL beyond the filesystem's maximum file size - 16 TiB - 4 KiB on ext4 with 4 KiB blocks, 2^63-1 on
+// tmpfs; a READ_FILE at such an offset ends the connection like a negative one; worlds of every job live under os.TempDir)
+func fsMaxOffset() int64 {
+	f, err := os.CreateTemp("", "vmaxoff")
+	if err != nil {
+		return 1<<63 - 1
+	}
+	defer os.Remove(f.Name())
+	defer f.Close()
+	lo, hi := int64(0), int64(1<<63-1) // lo is accepted; find the largest accepted offset
+	if _, err := f.Seek(hi, 0); err == nil {
+		return hi
+	}
+	for lo < hi {
+		mid := lo + (hi-lo)/2 + (hi-lo)%2
+		if _, err := f.Seek(mid, 0); err == nil {
+			lo = mid
+		} else {
+			hi = mid - 1
+		}
+	}
+	return lo
+}
+
+func init() {
+	constGenerators = append(constGenerators, func(b *strings.Builder) error {
+		b.WriteString("(* environment: the largest offset lseek accepts on the filesystem that holds the worlds of the harness *)\n")
+		defZ(b, "fs_max_offset", fsMaxOffset())
+		b.WriteString("\n")
+		return nil
+	})
+}
